@@ -277,22 +277,25 @@ Qed.
 Lemma deref_prim t k : deref t = Prim k -> t = Prim k \/ t = Ptr (Prim k).
 Proof. destruct t; simpl; intro H; try discriminate; [left | right]; congruence. Qed.
 
+Lemma denotes_signed s z : parse_signed s = Some z -> denotes_int s z = true.
+Proof. unfold denotes_int. intros ->. rewrite Z.eqb_refl. reflexivity. Qed.
+
 Lemma convert_set_exact pj k s fi v : convert_set k s fi = Ok v ->
   leaf_agrees k (match fi with Some i => JNum s i | None => JStr s pj end) v = true.
 Proof.
   unfold convert_set. destruct k.
   - destruct (parse_bool s) eqn:E; [|discriminate]. intro H; inversion H; subst. simpl. destruct fi; rewrite E; apply eqb_reflx.
   - destruct (parse_int64 s) eqn:E; [|discriminate]. destruct (fits_int w z) eqn:F; [|discriminate]. intro H; inversion H; subst.
-    apply parse_int64_signed in E as [E _]. simpl. destruct fi; rewrite E, Z.eqb_refl, F; reflexivity.
+    apply parse_int64_signed in E as [E _]. simpl. destruct fi; rewrite (denotes_signed _ _ E), F; reflexivity.
   - destruct (parse_uint64 s) eqn:E; [|discriminate]. destruct (fits_uint w z) eqn:F; [|discriminate]. intro H; inversion H; subst.
-    apply parse_uint64_signed in E. simpl. destruct fi; rewrite E, Z.eqb_refl, F; reflexivity.
+    apply parse_uint64_signed in E. simpl. destruct fi; rewrite (denotes_signed _ _ E), F; reflexivity.
   - destruct fi as [i|]; [|discriminate]. destruct (fi_fits64 i) eqn:F1; [|discriminate]. destruct (fi_fits32 i); [|discriminate].
     intro H; inversion H; subst. simpl. rewrite F1. destruct (fi_canon i); simpl; rewrite ?String.eqb_refl; reflexivity.
   - destruct fi as [i|]; [|discriminate]. destruct (fi_fits64 i) eqn:F1; [|discriminate].
     intro H; inversion H; subst. simpl. rewrite F1. destruct (fi_canon i); simpl; rewrite ?String.eqb_refl; reflexivity.
   - intro H; inversion H; subst. simpl. destruct fi; apply String.eqb_refl.
   - destruct (parse_int64 s) eqn:E; [|discriminate]. intro H; inversion H; subst.
-    apply parse_int64_signed in E as [E F]. simpl. rewrite F. destruct fi; rewrite E, Z.eqb_refl; simpl; rewrite ?orb_true_r; reflexivity.
+    apply parse_int64_signed in E as [E F]. simpl. rewrite F. destruct fi; rewrite (denotes_signed _ _ E); simpl; rewrite ?orb_true_r; reflexivity.
 Qed.
 
 Definition is_int_ty (t : ty) : bool := match deref t with Prim (KInt _) | Prim (KUint _) | Prim KDur => true | _ => false end.
@@ -318,15 +321,15 @@ Proof.
   intro H. split; [|split; [eapply in_options_value; [reflexivity | exact Op] |]].
   - destruct (deref t) as [k| | | |] eqn:D; try discriminate. apply deref_prim in D. destruct k; try discriminate.
     + destruct (parse_int64 raw) eqn:E; [|discriminate]. destruct (fits_int w0 z) eqn:F; [|discriminate]. inversion H; subst.
-      apply parse_int64_signed in E as [E _]. destruct D; subst; simpl; rewrite E, Z.eqb_refl, F; reflexivity.
+      apply parse_int64_signed in E as [E _]. destruct D; subst; simpl; rewrite (denotes_signed _ _ E), F; reflexivity.
     + destruct (parse_int64 raw) eqn:E; [|discriminate]. destruct (z <? 0); [discriminate|]. destruct (fits_uint w0 z) eqn:F; [|discriminate]. inversion H; subst.
-      apply parse_int64_signed in E as [E _]. destruct D; subst; simpl; rewrite E, Z.eqb_refl, F; reflexivity.
+      apply parse_int64_signed in E as [E _]. destruct D; subst; simpl; rewrite (denotes_signed _ _ E), F; reflexivity.
     + destruct (fi_fits64 fi) eqn:F1; [|discriminate]. destruct (fi_fits32 fi); [|discriminate]. inversion H; subst.
       destruct D; subst; simpl; rewrite F1; destruct (fi_canon fi); simpl; rewrite ?String.eqb_refl; reflexivity.
     + destruct (fi_fits64 fi) eqn:F1; [|discriminate]. inversion H; subst.
       destruct D; subst; simpl; rewrite F1; destruct (fi_canon fi); simpl; rewrite ?String.eqb_refl; reflexivity.
     + destruct (parse_int64 raw) eqn:E; [|discriminate]. inversion H; subst.
-      apply parse_int64_signed in E as [E F]. destruct D; subst; simpl; rewrite E, Z.eqb_refl, F; reflexivity.
+      apply parse_int64_signed in E as [E F]. destruct D; subst; simpl; rewrite (denotes_signed _ _ E), F; reflexivity.
   - intro NF. unfold is_int_ty in NF. destruct (deref t) as [k| | | |] eqn:D; try discriminate. apply deref_prim in D. destruct k; try discriminate.
     + destruct (parse_int64 raw) eqn:E; [|discriminate]. destruct (fits_int w0 z); [|discriminate]. inversion H; subst.
       apply parse_int64_signed in E as [E _]. destruct (range_tok_value _ _ _ _ R E). destruct D; subst; assumption.
